@@ -104,16 +104,16 @@ func suiteName(id uint16) string {
 }
 
 type specView struct {
-	exts      map[string]tls.TLSExtension
-	alpn      *tls.ALPNExtension
-	alps      *tls.ApplicationSettingsExtension
-	sigs      []tls.SignatureScheme
-	groups    []tls.CurveID
-	shares    []tls.CurveID
-	versions  []uint16
-	hasKS     bool
-	hasSV     bool
-	dupExt    string
+	exts     map[string]tls.TLSExtension
+	alpn     *tls.ALPNExtension
+	alps     *tls.ApplicationSettingsExtension
+	sigs     []tls.SignatureScheme
+	groups   []tls.CurveID
+	shares   []tls.CurveID
+	versions []uint16
+	hasKS    bool
+	hasSV    bool
+	dupExt   string
 }
 
 func viewOf(s *tls.ClientHelloSpec) specView {
